@@ -6,6 +6,7 @@
 #include <stdlib.h>
 #include <string.h>
 #include <stdarg.h>
+#include <stddef.h>
 #include <stdint.h>
 #include <signal.h>
 #include <unistd.h>
